@@ -376,6 +376,7 @@ type c16Case struct {
 	Msg   string `json:"msg,omitempty"`  // diagnostic text (not compared)
 	T2G   string `json:"tars2go,omitempty"` // exit status of the tars2go binary on the same input (sampled)
 	Text  string `json:"text,omitempty"` // the input as text when printable
+	Mod   *c16Module `json:"mod,omitempty"` // kind tv: the program's structure (replay re-derives the expectations from it)
 }
 
 func c16Printable(b []byte) bool {
@@ -572,7 +573,9 @@ func c16Main(a Args) {
 		res.CaseFiles = append(res.CaseFiles, name)
 	}
 	if a.Replay == "" {
-		c16BackEnd(a, rng, res, cases)
+		c16BackEnd(a, rng, res, cases, nil)
+	} else if len(cases) > 0 {
+		c16BackEnd(a, rng, res, cases, &cases[0])
 	}
 	writeResult(a, res)
 }
